@@ -33,6 +33,9 @@ struct BadCase : std::runtime_error {
   using std::runtime_error::runtime_error;
 };
 
+/* every buffer of R.bufs is surrounded by two guard zones of BUF_GUARD bytes (value 0xA5) that `dump` verifies */
+constexpr size_t BUF_GUARD = 512;
+
 struct Rank {
   int rank = -1; // rank in MPI_COMM_WORLD
   int size = 0;
